@@ -28,8 +28,18 @@ CONFIGS = [
 ]
 
 
+BOTTOMUP_CONFIGS = ('none', 'plans', 'serial_history', 'report_log', 'all_payload_subst7', 'utility_serial_verbose')   # bottom-up reaction order: its own groups
+
+
 def specs(flavours):
     out = []
+    for name, defs in CONFIGS:
+        if name in BOTTOMUP_CONFIGS:
+            for mname, mspec in (S1, S3):
+                if mname == 'zf_plans' and 'HFSM2_ENABLE_PLANS' not in defs:
+                    continue
+                d = list(defs) + ['HV_MACHINE_HEADER="%s.hpp"' % mname, 'HVF_MANUAL', 'HVF_BOTTOMUP'] + (['HVF_USE_PLANS'] if mname == 'zf_plans' else [])
+                out.append(dict(name='feat_%s_%s_mb' % (mname, name), source='harness/hv_feat.cpp', defines=d, machine=(mname, mspec), sanitize=False, link=[], group=(mname, 'mb')))
     for act in ('m', 'a'):
         for name, defs in CONFIGS:
             for mname, mspec in (S1, S2, S3):
